@@ -1,6 +1,7 @@
 import Proofs.ScsvFaults
 import Proofs.ScsvTerse
 import Proofs.ScsvErrors
+import Proofs.YamlScalar
 /-! # C16 — SCSV save/read round trip is lossless; invalid schemas and data are refused
 
 Theorems about `Scsv.save` / `Scsv.read` (the model of `pydrex.io.save_scsv` / `read_scsv` at /repo
@@ -86,6 +87,13 @@ theorem header_roundtrip (E : FloatExt) (d m : Str) (fs : List Field) (hd : Yaml
     (hne : fs ≠ []) (hf : ∀ f ∈ fs, FieldHeaderOK E f) :
     parseHeader ((headerLines E d m fs).map (· ++ ['\n'])) = .ok ⟨some d, some m, some (fs.map (normField E))⟩ :=
   parseHeader_headerLines E d m fs hd hm hne hf
+
+/-- the YAML implicit resolver on identifiers: an identifier written as a PLAIN scalar (what the header
+writer did before commit 78c9fb7) is read back as itself unless it matches PyYAML's bool or null pattern
+(`yes`, `No`, `ON`, `true`, `null`, …); it is never taken for a number or a timestamp. -/
+theorem yaml_identifier_plain_resolution (n : Str) (h : isIdentifier n = true) :
+    resolvePlain n = .str n ∨ reBool.matchesStr n = true ∨ reNull.matchesStr n = true :=
+  identifier_plain_resolution n h
 
 /-! ## the composed property -/
 
